@@ -786,3 +786,10 @@ func (r *Run) writeEvidence(nviol int, known []string) {
 
 // Deadline is the internal deadline of this run (exceeding it ends exploration with exhaustive:false).
 func Deadline() time.Time { return theRun.deadline }
+
+// ViolationCount returns the number of (unsuppressed) violations recorded so far.
+func ViolationCount() int {
+	theRun.mu.Lock()
+	defer theRun.mu.Unlock()
+	return len(theRun.violations)
+}
